@@ -893,6 +893,22 @@ fn build_ge(lhs: &AstNode, rhs: &AstNode) -> Result<Evaluator> {
         Value::Date(rh) => Value::Boolean(lh >= rh),
         _ => value_null!("eval_less_or_equal_date"),
       },
+      Value::Time(lh) => match rhv {
+        Value::Time(rh) => lh.after_or_equal(&rh).map_or_else(|| value_null!("eval_greater_or_equal_time"), Value::Boolean),
+        _ => value_null!("eval_greater_or_equal_time"),
+      },
+      Value::DateTime(lh) => match rhv {
+        Value::DateTime(rh) => lh.after_or_equal(&rh).map_or_else(|| value_null!("eval_greater_or_equal_date_time"), Value::Boolean),
+        _ => value_null!("eval_greater_or_equal_date_time"),
+      },
+      Value::DaysAndTimeDuration(lh) => match rhv {
+        Value::DaysAndTimeDuration(rh) => Value::Boolean(lh >= rh),
+        _ => value_null!("eval_greater_or_equal_days_and_time_duration"),
+      },
+      Value::YearsAndMonthsDuration(lh) => match rhv {
+        Value::YearsAndMonthsDuration(rh) => Value::Boolean(lh >= rh),
+        _ => value_null!("eval_greater_or_equal_years_and_months_duration"),
+      },
       _ => value_null!("eval_less_or_equal"),
     }
   }))
@@ -917,6 +933,22 @@ fn build_gt(lhs: &AstNode, rhs: &AstNode) -> Result<Evaluator> {
       Value::Date(lh) => match rhv {
         Value::Date(rh) => Value::Boolean(lh > rh),
         _ => value_null!("eval_greater_then_date"),
+      },
+      Value::Time(lh) => match rhv {
+        Value::Time(rh) => lh.after(&rh).map_or_else(|| value_null!("eval_greater_then_time"), Value::Boolean),
+        _ => value_null!("eval_greater_then_time"),
+      },
+      Value::DateTime(lh) => match rhv {
+        Value::DateTime(rh) => lh.after(&rh).map_or_else(|| value_null!("eval_greater_then_date_time"), Value::Boolean),
+        _ => value_null!("eval_greater_then_date_time"),
+      },
+      Value::DaysAndTimeDuration(lh) => match rhv {
+        Value::DaysAndTimeDuration(rh) => Value::Boolean(lh > rh),
+        _ => value_null!("eval_greater_then_days_and_time_duration"),
+      },
+      Value::YearsAndMonthsDuration(lh) => match rhv {
+        Value::YearsAndMonthsDuration(rh) => Value::Boolean(lh > rh),
+        _ => value_null!("eval_greater_then_years_and_months_duration"),
       },
       _ => value_null!("eval_greater_then"),
     }
@@ -1099,6 +1131,22 @@ fn build_le(lhs: &AstNode, rhs: &AstNode) -> Result<Evaluator> {
         Value::Date(rh) => Value::Boolean(lh <= rh),
         _ => value_null!("eval_less_or_equal_date"),
       },
+      Value::Time(lh) => match rhv {
+        Value::Time(rh) => lh.before_or_equal(&rh).map_or_else(|| value_null!("eval_less_or_equal_time"), Value::Boolean),
+        _ => value_null!("eval_less_or_equal_time"),
+      },
+      Value::DateTime(lh) => match rhv {
+        Value::DateTime(rh) => lh.before_or_equal(&rh).map_or_else(|| value_null!("eval_less_or_equal_date_time"), Value::Boolean),
+        _ => value_null!("eval_less_or_equal_date_time"),
+      },
+      Value::DaysAndTimeDuration(lh) => match rhv {
+        Value::DaysAndTimeDuration(rh) => Value::Boolean(lh <= rh),
+        _ => value_null!("eval_less_or_equal_days_and_time_duration"),
+      },
+      Value::YearsAndMonthsDuration(lh) => match rhv {
+        Value::YearsAndMonthsDuration(rh) => Value::Boolean(lh <= rh),
+        _ => value_null!("eval_less_or_equal_years_and_months_duration"),
+      },
       _ => value_null!("eval_less_or_equal"),
     }
   }))
@@ -1123,6 +1171,22 @@ fn build_lt(lhs: &AstNode, rhs: &AstNode) -> Result<Evaluator> {
       Value::Date(lh) => match rhv {
         Value::Date(rh) => Value::Boolean(lh < rh),
         _ => value_null!("eval_less_then_date"),
+      },
+      Value::Time(lh) => match rhv {
+        Value::Time(rh) => lh.before(&rh).map_or_else(|| value_null!("eval_less_then_time"), Value::Boolean),
+        _ => value_null!("eval_less_then_time"),
+      },
+      Value::DateTime(lh) => match rhv {
+        Value::DateTime(rh) => lh.before(&rh).map_or_else(|| value_null!("eval_less_then_date_time"), Value::Boolean),
+        _ => value_null!("eval_less_then_date_time"),
+      },
+      Value::DaysAndTimeDuration(lh) => match rhv {
+        Value::DaysAndTimeDuration(rh) => Value::Boolean(lh < rh),
+        _ => value_null!("eval_less_then_days_and_time_duration"),
+      },
+      Value::YearsAndMonthsDuration(lh) => match rhv {
+        Value::YearsAndMonthsDuration(rh) => Value::Boolean(lh < rh),
+        _ => value_null!("eval_less_then_years_and_months_duration"),
       },
       _ => value_null!("eval_less_then"),
     }
